@@ -4,6 +4,7 @@ import (
 	"encoding/json"
 	"fmt"
 	"math/rand"
+	"net/url"
 	"strconv"
 	"strings"
 	"time"
@@ -191,6 +192,28 @@ func checkC05(c *core.Check) {
 					}
 					return p
 				}
+				// the same path in another valid spelling: the first character of every literal segment (base path
+				// included) percent-encoded although it need not be - what the router and Parse() work on is the decoded path
+				over := func(seg string) string {
+					if seg == "" {
+						return seg
+					}
+					return fmt.Sprintf("%%%02X", seg[0]) + url.PathEscape(seg[1:])
+				}
+				fillRaw := func(choice map[int]string) string {
+					p := ""
+					for _, bs := range b.Segs {
+						p += "/" + over(bs)
+					}
+					for i, s := range t {
+						if s.K == "var" {
+							p += "/" + url.PathEscape(choice[i])
+						} else {
+							p += "/" + over(s.S)
+						}
+					}
+					return p
+				}
 				var reqs []map[int]string
 				for _, vi := range vars {
 					for _, lx := range pathLex[typeOfVar(ds, t, vi)] {
@@ -215,6 +238,9 @@ func checkC05(c *core.Check) {
 						caseN++
 						rc := mkReq(fmt.Sprintf("c%d", caseN), meth, fill(ch), nil, a)
 						rc.Script = driver.Script{Parse: true}
+						if caseN%3 == 0 {
+							rc.RawPath = fillRaw(ch)
+						}
 						g.Cases = append(g.Cases, rc)
 					}
 				}
